@@ -34,17 +34,14 @@ Print Assumptions C02_epoch.
 Theorem C02_strip : forall pre body post l1 l2,
   (allspace pre = true -> allspace post = true -> trimmed body -> strip (pre ++ body ++ post) = body) /\
   (no_nl (strip l1) = true -> no_nl (strip l2) = true -> read_tle l1 l2 = Some (strip l1, strip l2)).
-Proof. intros pre body post l1 l2. split; [apply strip_spec|apply read_tle_strip]. Qed.
+Proof. exact strip_and_read. Qed.
 Print Assumptions C02_strip.
 
 (* the printed element set is 2 x 69 characters and passes the checksum test of the constructor *)
 Theorem C02_encoded_accepted : forall f, wf f = true ->
   length (fst (encode f)) = 69%nat /\ length (snd (encode f)) = 69%nat /\
   check_tle (fst (encode f)) (snd (encode f)) = Accept.
-Proof.
-  intros f H. destruct (encoded_lengths f H) as [A B].
-  split; [exact A|split; [exact B|apply check_tle_encode]].
-Qed.
+Proof. exact encoded_accepted. Qed.
 Print Assumptions C02_encoded_accepted.
 
 (* the whole constructor (strip; checksum; parse) on a well-formed element set given with
@@ -55,6 +52,17 @@ Theorem C02_init : forall f pre1 post1 pre2 post2, wf f = true ->
   = Some (fst (encode f), snd (encode f), values f).
 Proof. exact tle_init_encode. Qed.
 Print Assumptions C02_init.
+
+(* every float attribute is a decimal with an integer mantissa below 2^53 and a power of ten within
+   10^(+-22): both parts are exactly representable in binary64 (the regime in which the nearest double
+   is one correctly rounded operation away; that CPython returns it is validated, not proved) *)
+Theorem C02_decimal_sizes : forall f, wf f = true ->
+  let v := values f in
+  small (epoch_day v) /\ small (mean_motion_derivative v) /\ small (mean_motion_sec_derivative v) /\
+  small (bstar v) /\ small (inclination v) /\ small (right_ascension v) /\ small (excentricity v) /\
+  small (arg_perigee v) /\ small (mean_anomaly v) /\ small (mean_motion v).
+Proof. exact values_small. Qed.
+Print Assumptions C02_decimal_sizes.
 
 Open Scope string_scope.
 (* non-vacuity 1: the printer reproduces a real element set (ISS, 2008), checksums included *)
@@ -73,6 +81,8 @@ Example C02_iss :
   encode iss = (L "1 25544U 98067A   08264.51782528 -.00002182  00000-0 -11606-4 0  2927",
                 L "2 25544  51.6416 247.4627 0006703 130.5360 325.0288 15.72125391563537") /\
   bstar (values iss) = mkdec true 11606 (-9) /\
+  QArith_base.Qeq_bool (dec_Q (bstar (values iss))) (QArith_base.Qmake (-11606) 1000000000) = true /\   (* -.11606e-4 *)
+  QArith_base.Qeq_bool (dec_Q (inclination (values iss))) (QArith_base.Qmake 516416 10000) = true /\
   (* 2008-09-20T12:25:40.104192 *)
   epoch (values iss) = (10 ^ 8 * civil_us 2008 9 20 12 25 40 104192, 10 ^ 8).
 Proof. vm_compute. repeat split; reflexivity. Qed.
@@ -97,6 +107,7 @@ Example C02_boundary :
   tle_init (L "  " ++ fst (encode ex) ++ L " ")%list (snd (encode ex)) = Some (fst (encode ex), snd (encode ex), values ex) /\
   inclination (values ex) = mkdec false 1799999 (-4) /\
   mean_motion_sec_derivative (values ex) = mkdec false 99999 4 /\
+  QArith_base.Qeq_bool (dec_Q (mean_motion_sec_derivative (values ex))) (QArith_base.inject_Z 999990000) = true /\   (* +.99999e+9 *)
   bstar (values ex) = mkdec true 0 (-5) /\
   ephemeris_type (values ex) = 0 /\ element_number (values ex) = 9999 /\ orbit (values ex) = 99999 /\
   (* 2068-12-31T00:00:00 *)
